@@ -15,7 +15,9 @@ RULE = ("for each of the seven Architecture objects (x86, amd64, mips, mipsel, p
         "(push/pop/sub/add/lea/and/leave/xchg on esp/rsp; addiu/move/lw on $sp; stwu/addi/mr/lwz on r1; "
         "stp/ldp pre/post-index, sub/add/mov/and on sp) as straight lines, diamonds and loops, lifted by the real "
         "translators. falcon's real stack_pointer_offsets() map is judged by the kernel-proved checker spoCheck; "
-        "distinct = distinct request line; non-trivial = the analysis completed and reports at least two distinct "
+        "machine-code cases are also run on the reference interpreter of the instruction set from the architectural stack "
+        "register = s0, and every number falcon reports at an instruction boundary is compared with the architectural "
+        "stack pointer (verdict isa-contradicted); distinct = distinct request line; non-trivial = the analysis completed and reports at least two distinct "
         "numbers")
 TRUSTED = [
     "specification: the function-level small-step relation FStep/FRun of FalconModel/Exec.lean (C07's model of State::execute)",
@@ -23,7 +25,10 @@ TRUSTED = [
     "code with the real translators) + lean/Drivers/C17.lean (parser, search for a contradicting run) + check",
     "runs end at Operation::Branch and at intrinsics (the executor leaves the function / has no semantics for them): "
     "claims at locations behind them are vacuous",
-    "which scalar is the stack pointer, and its width, are taken from falcon's Architecture::stack_pointer() (the tables are C20's subject)",
+    "il cases: which scalar is the stack pointer, and its width, are falcon's Architecture::stack_pointer() (the generator "
+    "builds the functions over that scalar); mc cases: additionally judged against the ARCHITECTURAL stack register by "
+    "the reference interpreters FalconModel/Isa/{Mips,Ppc,A64,X86}.lean (the specifications of C01-C03, written from the "
+    "manuals from memory; x86 decoding by capstone)",
 ]
 ASSUMPTIONS = [
     "one width per scalar name and no SSA versions (the executor's state is keyed by name); other functions are answered '?'",
@@ -32,8 +37,58 @@ ASSUMPTIONS = [
 ]
 
 
+# ---------------------------------------------------------------- the architectural (ISA) oracle: coverage counters
+ISA_KEYS = ("cmp", "top", "und", "noil", "exit", "fuel", "stop")
+ISA_STATS = {}
+
+
+def _isa_count(c):
+    if "/mc/" not in c.cls:
+        return
+    arch = c.cls.split("/")[0]
+    st = ISA_STATS.setdefault(arch, dict({"mc_cases": 0, "witnessed_cases": 0, "contradicted_cases": 0},
+                                         **{k: 0 for k in ISA_KEYS}))
+    st["mc_cases"] += 1
+    if "isa-contradicted" in c.model:
+        st["contradicted_cases"] += 1
+    for tok in c.spec.split():
+        if tok.startswith("isa=") and tok != "isa=-":
+            st["witnessed_cases"] += 1
+            for kv in tok[4:].split(","):
+                k, _, v = kv.partition(":")
+                if k in st and v.isdigit():
+                    st[k] += int(v)
+
+
+def extra_coverage():
+    return {
+        "isa_oracle": {
+            "what": "mc cases only: the Lean reference interpreter of the instruction set (FalconModel/Isa/Mips.lean, "
+                    "Ppc.lean, A64.lean decode the raw bytes of the request; X86.lean reads capstone's operand "
+                    "description) runs the bytes 6 times (stack register aligned / unaligned / 8-aligned x branch "
+                    "register zero / non-zero; 64 instructions of fuel) from ARCHITECTURAL stack register = s0 "
+                    "(MIPS r29, PPC r1, A64 SP, x86 esp/rsp; name and width NOT taken from falcon); after every "
+                    "machine instruction (MIPS: branch + delay slot) a number k reported at the last IL location "
+                    "of that instruction must satisfy sp = s0 + k mod 2^w. Compared only where that location is "
+                    "determined (all IL instructions with the address in one block, contiguous)",
+            "counters": "per architecture: mc_cases; witnessed_cases (analysis completed, interpreter input present); "
+                        "cmp = boundaries compared with a reported number; top = falcon reports Top/nothing there; "
+                        "und = IL of the instruction spread over several blocks (e.g. x86 jcc); noil = instruction "
+                        "lifted to no IL instruction (A64 cbz/b, empty blocks); runs ended by exit (left the code: "
+                        "return) / fuel / stop (outside the interpreter's domain, trap, fault, unaligned access)",
+            "per_architecture": ISA_STATS,
+            "not_covered": "il cases (no machine code: the stack pointer's name there is falcon's own, by "
+                           "construction of the generator); idioms outside an interpreter's domain end the run "
+                           "(A64 `and sp,x0,#imm`; MIPS sw/lw from an unaligned s0 = Address Error); PPC has no "
+                           "conditional branch the translator lifts, so only straight / jumped-over / spinning code",
+        }
+    }
+
+
 def _kind(c):
     m = c.model
+    if "isa-contradicted" in m:
+        return "isa-contradicted"
     if m.startswith("incomplete"):
         return "incomplete-" + m.split()[1].replace(":", "-")
     if " contradicted " in m:
@@ -45,6 +100,9 @@ def _kind(c):
 
 def classify(c):
     m = c.model
+    _isa_count(c)
+    if "isa-contradicted" in m:
+        return "violation"
     if m == "?":
         return "ok"
     if m.startswith("incomplete"):
